@@ -101,6 +101,50 @@ let parse_nl () =
       (p, times nc (fun () -> hb (next ())))) in
     (id, { nl_hdr = hdr; nl_stmts = stmts }))
 
+(* gen mode: the destructive analyzer on explicit multi-schema change lists (LintGenModel) *)
+let hopt () = match next () with "!" -> None | h -> Some (hb h)
+let parse_gcol () : gcolumn =
+  let n = hb (next ()) in let g = hopt () in { gc_name = n; gc_gen = g }
+let parse_gsch () : gschema =
+  let n = hb (next ()) in let k = n_of_int (next_int ()) in { gs_name = n; gs_ntables = k }
+let parse_gtab () : gtable =
+  let s = hopt () in let n = hb (next ()) in let k = next_int () in
+  { gt_schema = s; gt_name = n; gt_cols = times k parse_gcol }
+let parse_gtchange () : gtchange =
+  match next () with
+  | "+c" -> GAddColumn (parse_gcol ())
+  | "-c" -> GDropColumn (parse_gcol ())
+  | "rc" -> let a = parse_gcol () in let b = parse_gcol () in GRenameColumn (a, b)
+  | "oc" -> let k = n_of_int (next_int ()) in let n = hb (next ()) in GOtherT (k, n)
+  | s -> failwith ("gtchange " ^ s)
+let parse_gchange () : gchange =
+  match next () with
+  | "+s" -> GAddSchema (parse_gsch ())
+  | "-s" -> GDropSchema (parse_gsch ())
+  | "+t" -> GAddTable (parse_gtab ())
+  | "-t" -> GDropTable (parse_gtab ())
+  | "~t" -> let t = parse_gtab () in let n = next_int () in GModifyTable (t, times n parse_gtchange)
+  | "rt" -> let a = parse_gtab () in let b = parse_gtab () in GRenameTable (a, b)
+  | "o" -> GOther (n_of_int (next_int ()))
+  | s -> failwith ("gchange " ^ s)
+let parse_gschange () : gschange =
+  let p = n_of_int (next_int ()) in let n = next_int () in
+  { gsc_pos = p; gsc_changes = times n parse_gchange }
+let parse_cfg () : gblock list =
+  match next () with
+  | "nil" -> []
+  | k -> times (int_of_string k) (fun () ->
+      let ty = hb (next ()) in let na = next_int () in
+      (ty, times na (fun () -> let key = hb (next ()) in let v = next () = "1" in (key, v))))
+let hex_of_bytes (b : bytes) : string =
+  if b = [] then "-" else String.concat "" (Stdlib.List.map (fun n -> Printf.sprintf "%02x" (int_of_n n)) b)
+let show_gdiag (d : gdiag) : string =
+  let names = String.concat "," (Stdlib.List.map hex_of_bytes d.gd_names) in
+  match d.gd_code with
+  | GDS101 -> Printf.sprintf "DS101@%d(%s#%d)" (int_of_n d.gd_pos) names (int_of_n d.gd_ntables)
+  | GDS102 -> Printf.sprintf "DS102@%d(%s)" (int_of_n d.gd_pos) names
+  | GDS103 -> Printf.sprintf "DS103@%d(%s)" (int_of_n d.gd_pos) names
+
 let show_result id = function
   | LintLoadError (f, _) -> Printf.printf "%s exit=1 loaderr=%d\n" id (int_of_n f)
   | LintReport (files, failed) ->
@@ -123,6 +167,28 @@ let () =
            let cl = times n parse_schange in
            let ds = analyze_file cl in
            Printf.printf "%s err=%d %s\n" id (if ds = [] then 0 else 1) (show_diags ds)
+         | "gen" ->
+           let cfg = parse_cfg () in
+           let n = next_int () in
+           let cl = times n parse_gschange in
+           (match destructive_run cfg cl with
+            | GPanic -> Printf.printf "%s panic\n" id
+            | GDone (ds, rep, err) ->
+              Printf.printf "%s err=%d rep=%d [%s]\n" id (if err then 1 else 0) (if rep then 1 else 0)
+                (String.concat ";" (Stdlib.List.map show_gdiag ds)))
+         | "env" ->
+           let cl = n_of_int (next_int ()) in
+           let cg = hb (next ()) in
+           let ch = parse_cfg () in
+           let fl = (match next () with "!" -> None | k -> Some (n_of_int (int_of_string k))) in
+           let fg = hopt () in
+           let nf = next_int () in
+           let dir = times nf parse_file in
+           (match lint_env dir { fl_latest = fl; fl_git_base = fg } { ec_latest = cl; ec_git_base = cg; ec_children = ch } with
+            | EnvRequired -> Printf.printf "%s exit=1 err=required\n" id
+            | EnvExclusive -> Printf.printf "%s exit=1 err=exclusive\n" id
+            | EnvGit _ -> Printf.printf "%s git\n" id
+            | EnvLint r -> show_result id r)
          | "nl" ->
            let latest = next_int () in
            let nf = next_int () in
